@@ -113,6 +113,8 @@ type Cmd struct {
 	early  bool
 	InList bool
 	Marked bool // the rule contains state markers
+	Fixed  bool // items were set by the generator of the construct, not chosen at random
+	Twin   *Cmd // mid-rule action with byte-identical text in another rule (shares the label)
 }
 
 type Rule struct {
